@@ -994,7 +994,7 @@ func corpus() []*CaseSpec {
 
 func runC04(cfg *hv.RunCfg) error {
 	rep := hv.NewReport("C04", cfg.Seed)
-	rep.Rule = "abstract configurations (attributes, blocks with 0..3 labels, nesting, a few dynamic blocks) rendered as native text and/or as JSON text in randomly chosen admissible encodings (object / array-of-objects bodies, label objects / arrays, duplicate property names, \"//\" comments, plus a mutated stream with null / mistyped / duplicate properties); single files, dynblock.Expand of them, hcl.MergeBodies / MergeFiles of 2-3 files of mixed syntax (nested merges, expanded children, expanded merges); histories of 1-4 schema parts (required attributes, absent names, label-count mismatches, kind confusion), name-disjoint or (overlap stream) not; about 40 % of the cases also carry a tree-shaped history of 3-8 operations over a table of bodies (any body obtained so far - root, remainder, Expand of it, Body of a returned block - may be picked again; PartialContent / Content / JustAttributes / dynblock.Expand / block body; overlapping and repeated schemata), all run on the same Go objects; non-trivial = at least one item and at least one schema entry; distinct by SHA-256 of the replay form"
+	rep.Rule = "abstract configurations (attributes, blocks with 0..3 labels and - types deep/wide/octo and, in the many-labels stream (14 % of the cases), one more type - 4..8 labels, nesting, a few dynamic blocks; many-labels stream: label FAMILIES = consecutive blocks of one long-header type whose label vectors form a tree with 2-4 sibling names at every level along a spine, also at the innermost level, repeated vectors and repeated sibling names, rendered in JSON as nested label objects / arrays of label objects with several keys per level, also in nested block bodies, under dynamic blocks with labels lists of that length and merged with native files of the same types) rendered as native text and/or as JSON text in randomly chosen admissible encodings (object / array-of-objects bodies, label objects / arrays, duplicate property names, \"//\" comments, plus a mutated stream with null / mistyped / duplicate properties); single files, dynblock.Expand of them, hcl.MergeBodies / MergeFiles of 2-3 files of mixed syntax (nested merges, expanded children, expanded merges); histories of 1-4 schema parts (required attributes, absent names, label-count mismatches, kind confusion), name-disjoint or (overlap stream) not; about 40 % of the cases also carry a tree-shaped history of 3-8 operations over a table of bodies (any body obtained so far - root, remainder, Expand of it, Body of a returned block - may be picked again; PartialContent / Content / JustAttributes / dynblock.Expand / block body; overlapping and repeated schemata), all run on the same Go objects; non-trivial = at least one item and at least one schema entry; distinct by SHA-256 of the replay form"
 	r := hv.NewRng(cfg.Seed, 4)
 	cf := &hv.CaseFile{Dir: cfg.Out, Name: "c04cases",
 		Imports: "From Coq Require Import String.\nFrom HclV Require Import Base.Prelude Body.Laws Body.Native Body.Json Body.Merged Body.BodyCheck.",
@@ -1016,6 +1016,7 @@ func runC04(cfg *hv.RunCfg) error {
 	} else {
 		cases = append(cases, corpus()...)
 		cases = append(cases, treeCorpus()...)
+		cases = append(cases, labelCorpus()...)
 		if extra, err := filepath.Glob("/verif/corpus/C04/*.json"); err == nil {
 			sort.Strings(extra)
 			for _, p := range extra {
@@ -1117,6 +1118,9 @@ func runC04(cfg *hv.RunCfg) error {
 			}
 		}
 		oracle(cs, pf, main, f, input, rep)
+		// block identity (type, labels in order, label ranges), held across later calls (labels.go)
+		labelStats(cs, rep)
+		runLabelOracle(cs, pf, f, input, rep)
 	}
 	for k, v := range g.feat {
 		rep.Histogram["feat:"+k] += v
